@@ -371,19 +371,43 @@ int main(int argc, char **argv) {
       B3.deserialize(base + "B");
       B3.async_insert(515151 + me, (me + 1) % R);
       world.barrier();
+      // checkpoint and continue: operations issued after serialize() returned are not part of the image
+      map<long, long>    M4(world, 3), M5(world, 4);
+      set<long>          S4(world), S5(world);
+      bag<long>          B4(world), B5(world);
+      counting_set<long> C4(world), C5(world);
+      M4.async_insert(me, 100 + me);
+      S4.async_insert(me);
+      B4.async_insert(me);
+      C4.async_insert(7);
+      M4.serialize(base + "M4");
+      for (int k = 0; k < R; ++k) M4.async_insert(616161 + me * R + k, 9);
+      S4.serialize(base + "S4");
+      for (int k = 0; k < R; ++k) S4.async_insert(616161 + me * R + k);
+      B4.serialize(base + "B4");
+      for (int k = 0; k < R; ++k) B4.async_insert(616161 + me * R + k, k);
+      C4.serialize(base + "C4");
+      for (int k = 0; k < R; ++k) C4.async_insert(616161 + me * R + k);
+      world.barrier();
+      M5.deserialize(base + "M4");
+      S5.deserialize(base + "S4");
+      B5.deserialize(base + "B4");
+      C5.deserialize(base + "C4");
+      world.barrier();
       auto dumpm = [&](const std::string &tag, auto &m) {
         std::string s = "Z " + std::to_string(me) + " " + tag + " dflt=" + std::to_string(m.m_impl.m_default_value) + " :";
         for (auto &kv : m.m_impl.m_local_map) s += " " + std::to_string(kv.first) + "=" + std::to_string(kv.second);
         line(s);
       };
-      dumpm("M", M); dumpm("M2", M2); dumpm("X", X); dumpm("X2", X2); dumpm("M3", M3);
+      dumpm("M", M); dumpm("M2", M2); dumpm("X", X); dumpm("X2", X2); dumpm("M3", M3); dumpm("M5", M5);
       auto dumps = [&](const std::string &tag, auto &m) {
         std::string s = "Z " + std::to_string(me) + " " + tag + " :";
         for (auto &k : m.m_impl.m_local_set) s += " " + std::to_string(k);
         line(s);
       };
-      dumps("S", S); dumps("S2", S2); dumps("T", T); dumps("T2", T2); dumps("S3", S3);
+      dumps("S", S); dumps("S2", S2); dumps("T", T); dumps("T2", T2); dumps("S3", S3); dumps("S5", S5);
       line("Z " + std::to_string(me) + " B3 rr=" + std::to_string(B3.m_round_robin) + " :" + join(B3.m_local_bag));
+      line("Z " + std::to_string(me) + " B5 rr=" + std::to_string(B5.m_round_robin) + " :" + join(B5.m_local_bag));
       line("Z " + std::to_string(me) + " B rr=" + std::to_string(B.m_round_robin) + " :" + join(B.m_local_bag));
       line("Z " + std::to_string(me) + " B2 rr=" + std::to_string(B2.m_round_robin) + " :" + join(B2.m_local_bag));
       {
@@ -392,6 +416,9 @@ int main(int argc, char **argv) {
         line(s);
         s = "Z " + std::to_string(me) + " C2 :";
         for (auto &kv : C2.m_map.m_impl.m_local_map) s += " " + std::to_string(kv.first) + "=" + std::to_string(kv.second);
+        line(s);
+        s = "Z " + std::to_string(me) + " C5 :";
+        for (auto &kv : C5.m_map.m_impl.m_local_map) s += " " + std::to_string(kv.first) + "=" + std::to_string(kv.second);
         line(s);
       }
       auto hex = [](const std::string &x) {
